@@ -82,15 +82,15 @@ theorem sumA_eq_sumLen {c : Ctx} {ab : AB} : ∀ (is : List Nat), (∀ i ∈ is,
 theorem lsz_zero (c : Ctx) (ab : AB) : Lsz c 0 ab = sumA ab (List.range c.runs.size) := by
   unfold Lsz; exact leftsize_zero ab _
 
-theorem refine_spec {c : Ctx} (hg : Good c) (hm : 0 < c.runs.size) {rank : Nat} (hr : rank < totalLen c) :
-    Spec (refine c .partition rank) (fun o => o.seqlen = seqlenOf c ∧ Inv c 0 ⟨o.a, o.b⟩ ∧
+theorem refine_spec {c : Ctx} (hg : Good c) (r : Routine) (hm : 0 < c.runs.size) {rank : Nat} (hr : rank < totalLen c) :
+    Spec (refine c r rank) (fun o => o.seqlen = seqlenOf c ∧ Inv c r 0 ⟨o.a, o.b⟩ ∧
       sumA ⟨o.a, o.b⟩ (List.range c.runs.size) = rank) := by
   unfold refine
   refine Spec.bind (initSample_spec hg _) ?_
   intro sample hsample
   subst hsample
-  obtain ⟨hinv0, hl0⟩ := initAB_inv hg hm rank
-  refine Spec.bind (rounds_spec hg rank _ _ _ (Nat.div_le_self _ _) hinv0) ?_
+  obtain ⟨hinv0, hl0⟩ := initAB_inv hg r hm rank
+  refine Spec.bind (rounds_spec hg r rank _ _ _ (Nat.div_le_self _ _) hinv0) ?_
   intro ab ⟨hinv, hsame, hrank⟩
   refine Spec.pure ⟨rfl, hinv, ?_⟩
   show sumA ab (List.range c.runs.size) = rank
@@ -250,7 +250,7 @@ theorem sum_offs_cast (ab : AB) : ∀ (is : List Nat), (∀ i ∈ is, 0 ≤ A ab
     rw [ih]; omega
 
 /-- **The invariant at stride 1 with the exact rank is the partition specification.** -/
-theorem isPartition_of_inv {c : Ctx} (hg : Good c) {ab : AB} (hinv : Inv c 0 ab) {rank : Nat}
+theorem isPartition_of_inv {c : Ctx} (hg : Good c) {ab : AB} (hinv : Inv c .partition 0 ab) {rank : Nat}
     (hsum : sumA ab (List.range c.runs.size) = rank) : IsPartition c.lt (runsL c) rank (offsOf c ab) := by
   have hrl : (runsL c).length = c.runs.size := by simp [runsL]
   refine ⟨by simp [offsOf, runsL], ?_, ?_, ?_⟩
@@ -284,7 +284,8 @@ theorem isPartition_of_inv {c : Ctx} (hg : Good c) {ab : AB} (hinv : Inv c 0 ab)
     have hp2 : p < c.runs[i].toList.length := by omega
     have hai : 0 < A ab i := by omega
     have hbj : B ab j < lenAt c j := by rw [hj3, lenAt_eq c hj]; omega
-    have hv := hinv.valid i j hi hj hij hai hbj
+    have hv : Before c.lt (valAt c i (A ab i - 1)) i (valAt c j (B ab j)) j :=
+      Before.of_le_ne (hinv.valid i j hi hj hij hai hbj) hij
     -- the edge samples as list elements
     have e1 : valAt c i (A ab i - 1) = c.runs[i].toList[(A ab i).toNat - 1]'(by omega) := by
       have : A ab i - 1 = (((A ab i).toNat - 1 : Nat) : Int) := by omega
@@ -360,7 +361,7 @@ theorem msp_correct {c : Ctx} (hg : Good c) {rank : Nat} (hr : rank ≤ totalLen
       have h2 : ¬ (c.runs.size == 0 || decide (rank > totalLen c)) = true := by
         simp only [Bool.or_eq_true, beq_iff_eq, decide_eq_true_eq, not_or]; omega
       rw [if_neg h1, if_neg h2]
-      refine Spec.bind (refine_spec hg hm hlt) ?_
+      refine Spec.bind (refine_spec hg .partition hm hlt) ?_
       intro o ⟨hs, hinv, hsum⟩
       refine Spec.bind (edges_spec .partition hs (fun i hi => by
         obtain ⟨h0, h1, _, h3⟩ := hinv.str i hi
